@@ -143,7 +143,8 @@ pub(crate) fn scripted_next_event<R: Read>(p: &mut Parser<R>) -> Result<Event, i
 	unsafe {
 		assert!(EV_POS < EV_LEN, "the chunker asked for an event after STREAM-END");
 		let i = EV_POS; EV_POS += 1;
-		if EV_TYPE[i] == 0 { return Err(io::Error::from(io::ErrorKind::InvalidData)); }
+		// a failing parse: the error carries some OTHER kind (e.g. the UnexpectedEof of xt's own UTF-16 decoder)
+		if EV_TYPE[i] == 0 { return Err(io::Error::from(io::ErrorKind::UnexpectedEof)); }
 		// the parser has read at least up to the end mark of the event it reports
 		let mut guard = 0;
 		while EV_DELIVERED < EV_END[i] && guard < 3 {
